@@ -120,7 +120,7 @@ def run(chk, replay=None):
                             'and Lcapy returns phasors; distinct by netlist text + frequencies')
     disagreements = []
     n_cex = 0
-    ss_budget = [14 if quick else 250]
+    ss_budget = [14 if quick else 120]
 
     def sval(e, rep=None):
         x = e.sympy if hasattr(e, 'sympy') else S.sympify(e)
